@@ -112,10 +112,13 @@ def groupInsert (k : Nat) (t : Task) : List (Nat × List Task) → List (Nat × 
   | [] => [(k, [t])]
   | (k', g) :: rest => if k = k' then (k', g ++ [t]) :: rest else (k', g) :: groupInsert k t rest
 
+def groupStep (ckey : Nat → Option Nat) (acc : List (Nat × List Task)) (t : Task) : List (Nat × List Task) :=
+  match ckey t.envObj with
+  | some k => groupInsert k t acc
+  | none => acc
+
 def groupTasks (ckey : Nat → Option Nat) (ts : List Task) : List (Nat × List Task) :=
-  ts.foldl (fun acc t => match ckey t.envObj with
-    | some k => groupInsert k t acc
-    | none => acc) []
+  ts.foldl (groupStep ckey) []
 
 /-- `chunks_sorter = lambda c: min(t.env_id for t in c)` -/
 def minEnv : List Task → Nat
